@@ -694,7 +694,7 @@ impl World {
                 return;
             }
             if let Some(nat) = ds.nat.as_ref() {
-                if from == ds.addr || !nat.allowed.contains(&from) {
+                if !nat.open && (from == ds.addr || !nat.allowed.contains(&from)) {
                     return;
                 }
             }
